@@ -193,6 +193,20 @@ def hFrdEval : P String := do
   | .error e => pure (showErr e)
   | .ok F => pure ("ok " ++ showRes (F.eval ks scalar sq { sqFreq := cs }))
 
+/-- `frdevalw <rshape> <stored ids> <omega shape> <omega ids> offAxis sq cfgSq`: evaluation at
+points given as frequency *values* (ids: equal ids = equal frequencies); the stored list may be
+unsorted and may contain duplicates, the points may repeat, come in any order, or be missing. -/
+def hFrdEvalW : P String := do
+  let rs ← pShape
+  let stored ← pList pNat
+  let oshape ← pShape
+  let req ← pList pNat
+  let off ← pBool
+  let sq ← pSq; let cs ← pSq
+  match RespFRD.init (iota 0 rs) [stored.length] .none false with
+  | .error e => pure (showErr e)
+  | .ok F => pure ("ok " ++ showRes (F.evalAt stored ⟨oshape, req⟩ off sq { sqFreq := cs }))
+
 def hLti : P String := do
   let p ← pNat; let m ← pNat
   let xs ← pShape
@@ -445,6 +459,7 @@ def handle (toks : List String) : String :=
   | "ctor" :: rest => runLine hCtor rest
   | "frd" :: rest => runLine hFrd rest
   | "frdeval" :: rest => runLine hFrdEval rest
+  | "frdevalw" :: rest => runLine hFrdEvalW rest
   | "lti" :: rest => runLine hLti rest
   | "ltifr" :: rest => runLine hLtiFr rest
   | "key" :: rest => runLine hKey rest
